@@ -520,6 +520,53 @@ class ExternalVarsVisitor(ast.NodeVisitor):
             )
 
 
+    def visit_Attribute(self, node: ast.Attribute) -> Any:
+        # A variable that is read through its module (`module.VARIABLE`, `package.module.VARIABLE`)
+        # is a dependency like a variable that is read by its bare name.
+        names = _attribute_names(node)
+        if (
+            names is not None
+            and isinstance(node.ctx, ast.Load)
+            and names[0] not in self._local_vars
+            and isinstance(self._start_mod.__dict__.get(names[0]), ModuleType)
+        ):
+            local_dep_path = LocalDepPath(PurePosixPath("/".join(names)))
+            if local_dep_path in self.vars:
+                return
+            if local_dep_path not in self._rejected_paths:
+                res: ObjectRetrievalType
+                try:
+                    res = ObjectRetrieval.retrieve_object(
+                        local_dep_path, self._start_mod, self._gctx
+                    )
+                except DDSException:
+                    res = None
+                if (
+                    isinstance(res, AuthorizedObject)
+                    and not isinstance(res.object_val, (FunctionType, ModuleType))
+                    and not inspect.isclass(res.object_val)
+                ):
+                    sig = self._gctx.get_hash(res.resolved_path, res.object_val)
+                    self.vars[local_dep_path] = ExternalDep(
+                        local_path=local_dep_path, path=res.resolved_path, sig=sig
+                    )
+                    return
+                self._rejected_paths.add(local_dep_path)
+        self.generic_visit(node)
+
+
+def _attribute_names(node: ast.AST) -> Optional[List[str]]:
+    """
+    The names of a dotted access (a.b.c -> [a, b, c]), or None if the expression is not of this form.
+    """
+    if isinstance(node, ast.Name):
+        return [node.id]
+    if isinstance(node, ast.Attribute):
+        head = _attribute_names(node.value)
+        return None if head is None else head + [node.attr]
+    return None
+
+
 class LocalVarsVisitor(ast.NodeVisitor):
     """
     A brute-force attempt to find all the variables defined in the scope of a module.
